@@ -713,6 +713,17 @@ class ReadSetReader:
                 # The alignment ends inside the variant: the window holds only a prefix of
                 # the reference allele and cannot be compared with the full-length alleles
                 return None, None
+            if right_ref_bases == len(variant.reference_allele):
+                # The alignment ends with the last base of the reference allele. An allele that
+                # extends the reference allele (an insertion) may continue behind the end of
+                # the read: with fewer bases left than it inserts, the read cannot tell them apart
+                behind = right_query_bases - right_ref_bases
+                if any(
+                    alt.startswith(variant.reference_allele)
+                    and len(alt) - len(variant.reference_allele) > behind
+                    for alt in variant.get_alt_allele_list()
+                ):
+                    return None, None
 
             query = bam_read.query_sequence[
                 query_pos - left_query_bases : query_pos + right_query_bases
